@@ -631,7 +631,15 @@ func (ex *Exec) evalReceiver(st *State, sel *ast.SelectorExpr, s *types.Selectio
 				cur = ex.load(st2, cur, cur.GoT.Underlying().(*types.Pointer).Elem())
 			}
 		} else if !curIsPtr && wantPtr {
-			ex.oof(sel.Pos(), "implicit address-of for method call on %s", cur.GoT)
+			// pointer-receiver method on an addressable field (b.lock.Lock()): allowed only for
+			// contracted callees; the callee's effect on the field itself is not modelled.
+			if ex.cs.Funcs[funcKey(fn)] == nil {
+				ex.oof(sel.Pos(), "implicit address-of for uncontracted method call on %s", cur.GoT)
+			}
+			ex.assumptions["pointer-receiver calls on struct-valued fields (mutexes) do not change the modelled state"] = true
+			r := ex.fresh("addr", SRef)
+			st2.assume(not(eq(r, "0")))
+			cur = Val{T: r, S: SRef, GoT: types.NewPointer(cur.GoT)}
 		}
 		k(st2, cur)
 	})
